@@ -54,7 +54,7 @@ PROPS['C01'] = dict(
 )
 
 PROPS['C02'] = dict(
-    unit_modules=[], driver_modules=['drivers.c02'], level='other',
+    unit_modules=['contracts.c02_tokenizer'], driver_modules=['drivers.c02'], level='other',
     level_text='tbd', level_note='tbd', assumptions=COMMON_ASSUMPTIONS,
 )
 
